@@ -39,58 +39,66 @@ type Logger struct {
 }
 
 func (l Logger) ServeHTTP(w http.ResponseWriter, r *http.Request) (int, error) {
+	// every log whose path scope covers the request gets its line
+	var rules []*Rule
 	for _, rule := range l.Rules {
 		if httpserver.Path(r.URL.Path).Matches(rule.PathScope) {
-			// Record the response
-			responseRecorder := httpserver.NewResponseRecorder(w)
-
-			// Attach the Replacer we'll use so that other middlewares can
-			// set their own placeholders if they want to.
-			rep := httpserver.NewReplacer(r, responseRecorder, CommonLogEmptyValue)
-			responseRecorder.Replacer = rep
-			preURL := *r.URL
-
-			// Bon voyage, request!
-			status, err := l.Next.ServeHTTP(responseRecorder, r)
-
-			if status >= 400 {
-				// There was an error up the chain, but no response has been written yet.
-				// The error must be handled here so the log entry will record the response size.
-				if l.ErrorFunc != nil {
-					r.URL = &preURL
-					l.ErrorFunc(responseRecorder, r, status)
-				} else {
-					// Default failover error handler
-					responseRecorder.WriteHeader(status)
-					fmt.Fprintf(responseRecorder, "%d %s", status, http.StatusText(status))
-				}
-				status = 0
-			}
-
-			// Write log entries
-			for _, e := range rule.Entries {
-				// Check if there is an exception to prevent log being written
-				if !e.Log.ShouldLog(preURL.Path) {
-					continue
-				}
-
-				// Mask IP Address
-				if e.Log.IPMaskExists {
-					hostip, _, err := net.SplitHostPort(r.RemoteAddr)
-					if err == nil {
-						maskedIP := e.Log.MaskIP(hostip)
-						// Overwrite log value with Masked version
-						rep.Set("remote", maskedIP)
-					}
-				}
-				e.Log.Println(rep.Replace(e.Format))
-
-			}
-
-			return status, err
+			rules = append(rules, rule)
 		}
 	}
-	return l.Next.ServeHTTP(w, r)
+	if len(rules) == 0 {
+		return l.Next.ServeHTTP(w, r)
+	}
+
+	// Record the response
+	responseRecorder := httpserver.NewResponseRecorder(w)
+
+	// Attach the Replacer we'll use so that other middlewares can
+	// set their own placeholders if they want to.
+	rep := httpserver.NewReplacer(r, responseRecorder, CommonLogEmptyValue)
+	responseRecorder.Replacer = rep
+	preURL := *r.URL
+
+	// Bon voyage, request!
+	status, err := l.Next.ServeHTTP(responseRecorder, r)
+
+	if status >= 400 {
+		// There was an error up the chain, but no response has been written yet.
+		// The error must be handled here so the log entry will record the response size.
+		if l.ErrorFunc != nil {
+			r.URL = &preURL
+			l.ErrorFunc(responseRecorder, r, status)
+		} else {
+			// Default failover error handler
+			responseRecorder.WriteHeader(status)
+			fmt.Fprintf(responseRecorder, "%d %s", status, http.StatusText(status))
+		}
+		status = 0
+	}
+
+	// Write log entries
+	for _, rule := range rules {
+		for _, e := range rule.Entries {
+			// Check if there is an exception to prevent log being written
+			if !e.Log.ShouldLog(preURL.Path) {
+				continue
+			}
+
+			// Mask IP Address
+			if e.Log.IPMaskExists {
+				hostip, _, err := net.SplitHostPort(r.RemoteAddr)
+				if err == nil {
+					maskedIP := e.Log.MaskIP(hostip)
+					// Overwrite log value with Masked version
+					rep.Set("remote", maskedIP)
+				}
+			}
+			e.Log.Println(rep.Replace(e.Format))
+
+		}
+	}
+
+	return status, err
 }
 
 // Entry represents a log entry under a path scope
